@@ -117,7 +117,17 @@ pub fn run(args: &Args, rec: &mut Recorder) {
                     if !args.thorough && rng.chance(2, 3) {
                         continue;
                     }
-                    let bogus = format!("zz_bogus_{k}");
+                    // a missing target may also carry the THIS. prefix: outside a structure component
+                    // the convention does not apply, the name is simply missing
+                    let bogus = if e.ctx.site.starts_with("Characteristic.axis_descr[]")
+                        && (e.ctx.site.ends_with("axis_pts_ref") || e.ctx.site.ends_with("curve_axis_ref"))
+                        && rng.chance(1, 2)
+                    {
+                        rec.bump("corrupted.with_THIS_prefix_outside_structure");
+                        format!("THIS.zz_bogus_{k}")
+                    } else {
+                        format!("zz_bogus_{k}")
+                    };
                     let mut b = a2l.clone();
                     let mut idx = 0;
                     visit_refs(&mut b.project.module[0], &mut |_ctx, val| {
@@ -130,7 +140,9 @@ pub fn run(args: &Args, rec: &mut Recorder) {
                     rec.bump(&format!("corrupted.{}", e.ctx.site));
                     let Some(rep) = monitored_check(rec, &b, "corrupted module") else { continue };
                     let named = rep.iter().any(|r| match r {
-                        A2lError::CrossReferenceError { target_name, .. } => target_name == &bogus,
+                        A2lError::CrossReferenceError { target_name, .. } => {
+                            target_name == &bogus || Some(target_name.as_str()) == bogus.strip_prefix("THIS.")
+                        }
                         _ => false,
                     });
                     if !named {
@@ -155,6 +167,7 @@ pub fn run(args: &Args, rec: &mut Recorder) {
                     let foreign = rep.iter().find(|r| match r {
                         A2lError::CrossReferenceError { target_name, .. } => {
                             target_name != &bogus
+                                && Some(target_name.as_str()) != bogus.strip_prefix("THIS.")
                                 && !(e.ctx.site.starts_with("TypedefStructure") && target_name.starts_with("THIS."))
                         }
                         _ => false,
